@@ -33,6 +33,9 @@ def start_models():
     _starts["pheno"] = pheno
     # a multiple-dose oral-like data set: second dose inside the observation window
     _starts["pheno_oral"] = set_first_order_absorption(pheno)
+    lin = load_example_model("pheno_linear")
+    dfl = lin.dataset[lin.dataset["ID"] <= 3].reset_index(drop=True)
+    _starts["pheno_linear"] = lin.replace(dataset=dfl)
     return _starts
 
 
@@ -188,8 +191,10 @@ def grid_envs(model):
     epss = model.random_variables.epsilons.names
     out = []
     out.append(("init", ireval.base_env(model)))
-    e1 = {n: (0.3 if i % 2 == 0 else -0.2) for i, n in enumerate(etas)}
-    p1 = {n: (0.1 if i % 2 == 0 else -0.1) for i, n in enumerate(epss)}
+    # values are attached to names in sorted order, so that a transformation that only reorders the random effects
+    # is evaluated at the same point
+    e1 = {n: (0.3 if i % 2 == 0 else -0.2) for i, n in enumerate(sorted(etas))}
+    p1 = {n: (0.1 if i % 2 == 0 else -0.1) for i, n in enumerate(sorted(epss))}
     out.append(("eta,eps", ireval.base_env(model, etas=e1, eps=p1)))
     out.append(("0.8*init", ireval.base_env(model, scale=0.8, etas={n: -v for n, v in e1.items()})))
     return out
